@@ -95,7 +95,21 @@ def r1(ctx: Ctx, m: pf.Module) -> None:
                            {c.right.parts[-1].lower() for c in sf.conjuncts(st.where) if c.kind == 'bin' and c.op == '=' and c.right.kind == 'col' and c.left.kind == 'param'}
                     if 'token' in cols:
                         cands.append((e, st, cols))
-        ctx.need(len(cands) == 1, f'{cons}: expected one look-up of {table} by token, found {len(cands)} (a look-up through a helper or another column is not followed)')
+        if not cands:
+            # closed enumeration: every read of the table in this transaction function is a plain keyed SELECT (conjunction of `col = %s`), none of them is keyed by token, and
+            # the transaction is not handed to a helper that could do the look-up -> there is no look-up by token although the function inserts one
+            reads = [(e, st) for e in embs for st in e.stmts() if st.kind == 'select' and st.frm is not None and table in [t.lower() for t in sf.table_names(st.frm)]]
+            plain = all(all(c.kind == 'bin' and c.op == '=' and {c.left.kind, c.right.kind} == {'col', 'param'} for c in sf.conjuncts(st.where)) and sf.table_names(st.frm) == [table] for _e, st in reads)
+            opaque = [e for e in embs if e.sql_text is None or e.parse_error]
+            handed = [pf.dotted(c.func) or pf.nsrc(c.func) for c in pf.walk_shallow(fn) if isinstance(c, ast.Call) and not (isinstance(c.func, ast.Attribute) and isinstance(c.func.value, ast.Name) and c.func.value.id == 'tx')
+                      and any(isinstance(a, ast.Name) and a.id == 'tx' for a in list(c.args) + [k.value for k in c.keywords])]
+            inserts_token = any(st.kind == 'insert' and st.table.lower() == table and st.cols is not None and 'token' in [c.lower() for c in st.cols] for e in embs for st in e.stmts())
+            ctx.need(plain and not opaque and not handed and inserts_token and reads, f'{cons}: no look-up of {table} by token found (reads: {len(reads)}, helpers given the transaction: {handed}); not judged')
+            ctx.bad('R1', cons + '::token look-up', f'the transaction inserts a {table} row with a token but never reads {table} by that token: its reads are ' +
+                    '; '.join(f'`{text(st)[:90]}`' for _e, st in reads) + f'. A re-sent {what} creation request is only recognised by accident (e.g. while its {what} is still the latest one): after another '
+                    f'client\'s request in between, the retry creates a second {what} (or fails on the unique key)', m.path, reads[0][0].lineno)
+            continue
+        ctx.need(len(cands) == 1, f'{cons}: expected one look-up of {table} by token, found {len(cands)}')
         look, lst, cols = cands[0]
         missing = keycols - cols
         locked = (lst.lock or '').startswith('FOR UPDATE') and look.receiver.split('.')[-1] == 'tx'
